@@ -1,10 +1,12 @@
 #!/bin/sh
-# Offline build of the whole Lean side (models, lemmas, property files, drivers).
+# Offline build of the whole Lean side (models, lemmas, property files) and a smoke test of
+# the driver of every check claimed in MANIFEST.json.
 set -e
 cd "$(dirname "$0")/../lean"
 lake build
-for f in Driver/C*Main.lean; do
-  # every driver must at least start and answer an unknown op with an error object
+for pid in $(python3 -c "import json; print(' '.join(c['property_id'] for c in json.load(open('../MANIFEST.json'))['checks']))"); do
+  f=$(python3 -c "import json; print(json.load(open('obligations/$pid.json'))['driver'])")
+  # the driver must start and answer an unknown op with an error object
   echo '{"op":"__ping__","case":null}' | lake env lean --run "$f" | grep -q '"err"' || { echo "driver $f broken"; exit 1; }
 done
 echo setup ok
